@@ -28,6 +28,11 @@ type fileSpec struct {
 	Points    []string `json:"points"`
 	Probes    []string `json:"probes"`
 	RangeChan []string `json:"rangechan"`
+	// As: overlay key to register the result under (a virtual file, e.g. a copy of a dependency's file placed
+	// in a new package directory under the repository) instead of Path.
+	As string `json:"as"`
+	// Imports rewrites import paths (old -> new).
+	Imports map[string]string `json:"imports"`
 }
 
 type spec struct {
@@ -77,7 +82,15 @@ func main() {
 		if err := os.WriteFile(dst, res, 0o644); err != nil {
 			fail("write %s: %v", dst, err)
 		}
-		out[orig] = dst
+		if fs.As != "" {
+			as := fs.As
+			if !filepath.IsAbs(as) {
+				as = filepath.Join(sp.Repo, as)
+			}
+			out[as] = dst
+		} else {
+			out[orig] = dst
+		}
 	}
 	json.NewEncoder(os.Stdout).Encode(out)
 }
@@ -277,6 +290,15 @@ func instrument(path string, src []byte, fs *fileSpec) ([]byte, error) {
 			return nil, err
 		}
 		in.points = append(in.points, re)
+	}
+	for _, im := range f.Imports {
+		p, _ := strconv.Unquote(im.Path.Value)
+		if np, ok := fs.Imports[p]; ok {
+			if im.Name == nil {
+				im.Name = ast.NewIdent(filepath.Base(p))
+			}
+			im.Path.Value = strconv.Quote(np)
+		}
 	}
 	in.collectChanNames()
 
@@ -571,6 +593,10 @@ func (in *inst) rewriteSelect(s *ast.SelectStmt, label *ast.Ident) ast.Stmt {
 	clauses = append(clauses, &ast.CaseClause{
 		List: []ast.Expr{&ast.UnaryExpr{Op: token.SUB, X: &ast.BasicLit{Kind: token.INT, Value: "2"}}},
 		Body: []ast.Stmt{&ast.SelectStmt{Body: &ast.BlockStmt{List: origClauses}}},
+	})
+	// default: keeps the switch a terminating statement when every select arm is one
+	clauses = append(clauses, &ast.CaseClause{
+		Body: []ast.Stmt{&ast.ExprStmt{X: call(ast.NewIdent("panic"), str("vsync: bad select index"))}},
 	})
 	sw := &ast.SwitchStmt{
 		Init: &ast.AssignStmt{Lhs: []ast.Expr{sel}, Tok: token.DEFINE, Rhs: []ast.Expr{call(vs("Select"), append([]ast.Expr{hd}, selArgs...)...)}},
